@@ -48,6 +48,9 @@ def run(ctx):
     c01.r119_views(ctx, 'R6.9')
     from . import c07
     c07.r77(ctx, 'R6.8')
+    r611(ctx)
+    r612(ctx, api)
+    r613(ctx, api)
     _cs.general_rules(ctx, 'R6', ['api.ParquetFile', 'api._pre_allocate', 'core.read_row_group', 'core.read_row_group_arrays'])
 
 
@@ -351,3 +354,86 @@ def r65(ctx, api):
     init = api.func('ParquetFile.__init__')
     ctx.ob('R6.5', 'api.__init__:file-like-input-is-handed-back-by-self.open',
            'open_with = lambda *args, **kwargs: fn' in src(init), '', api.loc(init))
+
+
+def _own_nodes(f):
+    out = []
+    st = list(ast.iter_child_nodes(f))
+    while st:
+        x = st.pop()
+        if isinstance(x, (ast.FunctionDef, ast.AsyncFunctionDef, ast.Lambda, ast.ClassDef, ast.ListComp, ast.DictComp, ast.SetComp, ast.GeneratorExp)):
+            continue
+        out.append(x)
+        st.extend(ast.iter_child_nodes(x))
+    return out
+
+
+def r611(ctx, rule='R6.11'):
+    """A dataset, a selection of it, or a filter result may have no row groups.  A loop over them then runs zero times,
+    and a loop variable that is read after the loop must have a value from before it (api.py, core.py, dataframe.py:
+    the files of the partial-read routes).  Was: head() of a handle without row groups failed on the unbound `i`."""
+    n = 0
+    for mod in ('api', 'core', 'dataframe'):
+        m = ctx.repo[mod]
+        for qual, f in sorted(m.funcs.items()):
+            params = {a.arg for a in f.args.args + f.args.kwonlyargs + f.args.posonlyargs}
+            if f.args.vararg:
+                params.add(f.args.vararg.arg)
+            if f.args.kwarg:
+                params.add(f.args.kwarg.arg)
+            nodes = _own_nodes(f)
+            names = [x for x in nodes if isinstance(x, ast.Name)]
+            for lp in nodes:
+                if not isinstance(lp, ast.For):
+                    continue
+                n += 1
+                for t in sorted({x.id for x in ast.walk(lp.target) if isinstance(x, ast.Name)}):
+                    after = sorted([x for x in names if x.id == t and x.lineno > lp.end_lineno], key=lambda x: (x.lineno, x.col_offset))
+                    if not after or not isinstance(after[0].ctx, ast.Load):
+                        continue
+                    before = t in params or any(x.id == t and isinstance(x.ctx, ast.Store) and (x.lineno, x.col_offset) < (lp.lineno, lp.col_offset)
+                                                for x in names)
+                    ctx.ob(rule, '%s.%s:loop-variable-read-after-the-loop-is-bound-before-it:%s' % (mod, qual, t), before,
+                           '`for %s in %s` may run zero times (no row groups / nothing selected); `%s` is then read unbound at line %d'
+                           % (norm(lp.target), norm(lp.iter)[:40], t, after[0].lineno), m.loc(lp))
+    ctx.floor(rule, 'for loops examined in api/core/dataframe', n, 40)
+
+
+def r612(ctx, api, rule='R6.12'):
+    """iter_row_groups: whether a row group's frame is handed out depends on its rows only.  `DataFrame.empty` is also
+    true for a frame with rows and no columns (all selected columns in the index)."""
+    f = api.funcs['ParquetFile.iter_row_groups']
+    ys = [x for x in ast.walk(f) if isinstance(x, ast.Yield)]
+    if not ys:
+        raise AnalysisError('iter_row_groups no longer yields')
+    for st in walk_no_nested(f):
+        if isinstance(st, ast.If) and any(isinstance(x, ast.Yield) for x in ast.walk(st)):
+            bad = [x for x in ast.walk(st.test) if isinstance(x, ast.Attribute) and x.attr == 'empty']
+            ctx.ob(rule, 'api.ParquetFile.iter_row_groups:frame-skipped-by-row-count-only', not bad,
+                   '`%s`: .empty is true for a frame that has rows but no columns; iteration with the only selected column as '
+                   'index yields nothing while the full read has the rows' % norm(st.test), api.loc(st))
+    ctx.ob(rule, 'api.ParquetFile.iter_row_groups:yields', True, '', api.loc(ys[0]), nontrivial=False)
+
+
+def r613(ctx, api, rule='R6.13'):
+    """Partition columns in partial reads.  (a) _pre_allocate: a name chosen as index is not also allocated as a column
+    - the partition columns are appended to the column list after the index names were taken out of it; (b) __getitem__:
+    a selection keeps the partition columns of the dataset - they are recomputed from the paths of the selected row
+    groups alone, so an empty selection has none."""
+    f = api.funcs['_pre_allocate']
+    adds = [c for c in ast.walk(f) if isinstance(c, ast.Call) and isinstance(c.func, ast.Attribute) and c.func.attr in ('extend', 'append')
+            and norm(c.func.value) == 'cols']
+    if not adds:
+        adds_ok = True
+    else:
+        adds_ok = all('not in index' in norm(c.args[0]) for c in adds if c.args)
+    ctx.ob(rule, 'api._pre_allocate:partition-column-chosen-as-index-is-not-also-a-column', adds_ok,
+           '`%s` adds every partition column although `cols` was built without the index names: with index=<partition column> '
+           'the name is allocated twice and the index reads one label for all rows' % (norm(adds[0]) if adds else ''),
+           api.loc(adds[0]) if adds else api.loc(f))
+    g = api.funcs['ParquetFile.__getitem__']
+    txt = norm(g)
+    keeps = 'self.cats' in txt or "'cats'" in txt or '"cats"' in txt
+    ctx.ob(rule, 'api.ParquetFile.__getitem__:selection-keeps-the-partition-columns', keeps,
+           'the new handle recomputes its partition columns from the selected row groups only (_set_attrs -> _read_partitions); '
+           'pf[0:0].to_pandas() of a hive dataset lacks the partition columns the full read has', api.loc(g))
